@@ -1079,8 +1079,11 @@ bool evaluate_impl(const void *context, const GraphView &graph,
   // per-cycle setup (next_scheduled accumulation / push-source pass). A
   // completed cycle resets the cursor to 0. (A cursor of 0 or the initial
   // invalid sentinel means "fresh".)
+  // A cycle that ended by exception is not a paused one: its cursor still names
+  // the failing node (failed_node), but the next evaluate is a fresh cycle.
   const bool resuming =
-      state.evaluation_cursor != 0 && state.evaluation_cursor != invalid_cursor;
+      !state.evaluation_failed && state.evaluation_cursor != 0 &&
+      state.evaluation_cursor != invalid_cursor;
 
   state.evaluation_time = evaluation_time;
   state.evaluation_failed = false;
